@@ -691,6 +691,51 @@ def r15_memo_and_mass_vector(idx, r):
               msg=f"the baseline `{txt[:70]}` is not every nuclide of the enriched element: isotopes outside it (U236, U233) keep their mass while the total is redistributed, so the requested enrichment does not read back")
 
 
+def r17_present_nuclides_siblings_lines(idx, r):
+    """(a) adjustMassFrac sums mass fractions over the nuclides to hold constant and over the nuclides to adjust: each sum runs over a name set
+    that was already intersected with the nuclides the object holds.  An element's name list contains the elemental nuclide AND its isotopes;
+    getMassFrac of the elemental name answers with the isotopes' total, so summing before the intersection counts an expanded element twice.
+    (b) reader and writer of the enrichment agree on the baseline: getMassEnrichment and adjustMassEnrichment both take every nuclide of the
+    enriched element (element.nuclides).  (c) which blocks are cut by a symmetry line decides block volume and mass: only the 0- and
+    120-degree lines bound the third core (rule shared with C13/C08)."""
+    from .c13 import bounding_lines_rule
+    f = idx.method(AO, "adjustMassFrac")
+    n = 0
+    for c in iter_calls(f.node):
+        if dotted(c.func) != "sum" or not c.args or not isinstance(c.args[0], (ast.GeneratorExp, ast.ListComp)) or "getMassFrac" not in norm(c.args[0].elt):
+            continue
+        it = c.args[0].generators[0].iter
+        if not isinstance(it, ast.Name):
+            continue
+        n += 1
+        S = it.id
+
+        def ev(nd, S=S):
+            if isinstance(nd, ast.Assign) and any(norm(t) == S for t in nd.targets):
+                return ["narrowed"] if ".intersection(" in norm(nd.value) or norm(nd.value) in ("[]", "set()") else ["widened"]
+            if isinstance(nd, ast.Call) and norm(nd.func) == f"{S}.intersection_update":
+                return ["narrowed"]
+            return []
+        fl = Flow(f.node, ev).run()
+        st = fl.state_before(c) or {}
+        # the last binding that reaches the sum is a narrowed one: at least one narrowing, and no plain re-binding after it
+        stmt_assign = [x for x in walk_local(f.node) if isinstance(x, ast.Assign) and any(norm(t) == S for t in x.targets) and x.lineno < c.lineno]
+        last_ok = bool(stmt_assign) and (".intersection(" in norm(stmt_assign[-1].value) or norm(stmt_assign[-1].value) in ("[]", "set()")) or st.get("narrowed", (0, 0))[0] > st.get("widened", (0, 0))[1]
+        r.require(st.get("narrowed", (0, 0))[0] >= 1 and last_ok, f"adjustMassFrac:{S}:summed-over-present-nuclides", f, node=c,
+                  msg=f"`{norm(c)[:80]}` sums over `{S}` before it is cut down to the nuclides the object holds: an element carried as isotopes is counted once under its elemental name and once per isotope")
+    if n < 2:
+        raise AnchorMissing("adjustMassFrac: the two mass-fraction sums")
+    for meth in ("getMassEnrichment", "adjustMassEnrichment"):
+        g = idx.method(COMP, meth)
+        base = [s_ for s_ in iter_stores(g.node) if s_.kind == "assign" and isinstance(s_.node, ast.Name) and s_.node.id == "baselineNucNames" and s_.value is not None]
+        if len(base) != 1:
+            raise AnchorMissing(f"{meth}: baselineNucNames")
+        txt = norm(base[0].value)
+        r.require(".element.nuclides" in txt and "getNaturalIsotopics" not in txt, f"{meth}:baseline-is-every-nuclide-of-the-element", g, node=base[0].stmt,
+                  msg=f"the baseline of {meth} is `{txt[:70]}`: reader and writer of the enrichment must both count every nuclide of the element (U236, U233 ...), or an enrichment that was set does not read back")
+    bounding_lines_rule(idx, r)
+
+
 def r16_pairing(idx, r):
     from ..pairing import pairing_rule
     pairing_rule(idx, r, ["armi.reactor.composites", "armi.reactor.blocks", "armi.reactor.components", "armi.utils.densityTools"], 100)
@@ -735,3 +780,5 @@ def run(idx, chk):
                  necessary="mass = density x volume at every level; adding then removing a mass vector restores the masses; an enrichment that was set reads back")
     chk.run_rule("R02.16", "arguments stand at the parameter they are named after; sibling calls forward the same pass-through parameters", lambda r: r16_pairing(idx, r), floor=1,
                  necessary="the accessors compute with the options the caller gave")
+    chk.run_rule("R02.17", "mass-fraction sums run over nuclides present; enrichment reader and writer share the baseline; only the 0/120-degree lines cut a block", lambda r: r17_present_nuclides_siblings_lines(idx, r), floor=5,
+                 necessary="a held-constant element keeps its mass fraction; an enrichment that was set reads back; core mass is the sum of block masses with and without edge assemblies")
